@@ -60,8 +60,123 @@ func fbb.parsePM(str) (pm, err)
 func fbb.isSID(str) (r)
   props C03
 
+# C09 address normal form: "proto:addr" keeps both parts; a bare callsign and
+# "call@winlink.org" (any case) become the upper-case callsign without protocol; anything
+# else with an @ is an SMTP address kept as written
 func fbb.AddressFromString(addr) (a)
-  props C03
+  props C03 C09
+  ensures proto-form: len(strings.Split(addr, ":")) == 2 ==> same(a.Proto, strings.Split(addr, ":")[0]) && (len(a.Proto) > 0 ==> same(a.Addr, strings.Split(addr, ":")[1]))
+  ensures short-winlink: len(strings.Split(addr, ":")) != 2 && len(strings.Split(addr, "@")) == 1 ==> len(a.Proto) == 0 && same(a.Addr, strings.ToUpper(addr))
+  ensures full-winlink: len(strings.Split(addr, ":")) != 2 && len(strings.Split(addr, "@")) != 1 && strings.EqualFold(strings.Split(addr, "@")[1], "winlink.org") ==> len(a.Proto) == 0 && same(a.Addr, strings.ToUpper(strings.Split(addr, "@")[0]))
+  ensures smtp: len(strings.Split(addr, ":")) != 2 && len(strings.Split(addr, "@")) != 1 && !strings.EqualFold(strings.Split(addr, "@")[1], "winlink.org") ==> streq(a.Proto, "SMTP") && same(a.Addr, addr)
+
+# ---------------------------------------------------------------------------
+# C09: the Winlink message format, writer side.  Message.Write emits, through one
+# buffered writer: the header block (Header.Write), the empty line, exactly the body
+# bytes, then - only if there are attachments - the end-of-body CRLF followed by each
+# attachment's bytes and its CRLF, in the order of m.files (which is the order of the
+# File headers); the result is the error of the final flush.  This is the framing that
+# ReadFrom/readSection consume (below): body = BodySize bytes + CRLF, each file = its
+# declared size + CRLF.
+# ---------------------------------------------------------------------------
+ghost var gRd *bufio.Reader
+ghost var gBodySize int
+ghost var gFileSize int
+ghost var gWStage int
+ghost var gBW *bufio.Writer
+ghost var gFilesOut int
+ghost var gWFlush error
+
+func fbb.(*Message).Files(m) (r)
+  props C09
+  ensures def: same(r, m.files)
+
+func fbb.(*Message).Write(m, w) (err)
+  props C09 C01
+  requires msg: m != nil && w != nil
+  requires files: forall k :: 0 <= k && k < len(m.files) ==> m.files[k] != nil
+  call bufio.NewWriter set gBW := $r0
+  call fbb.(Header).Write requires header-first: gWStage == 0 && unbox($1) == gBW && $0.$ref == m.Header.$ref
+  call fbb.(Header).Write set gWStage := 1
+  call bufio.(*Writer).WriteString requires one-writer: $0 == gBW && $1 == "\r\n"
+  call bufio.(*Writer).Write requires one-writer: $0 == gBW
+  call bufio.(*Writer).WriteString#0 requires end-of-headers: gWStage == 1
+  call bufio.(*Writer).WriteString#0 set gWStage := 2
+  call bufio.(*Writer).Write#0 requires whole-body: gWStage == 2 && same($1, m.body)
+  call bufio.(*Writer).Write#0 set gWStage := 3
+  call bufio.(*Writer).WriteString#1 requires end-of-body-only-with-files: gWStage == 3 && len(m.files) > 0
+  call bufio.(*Writer).WriteString#1 set gWStage := 4
+  call bufio.(*Writer).Write#1 requires file-in-order: gWStage == 4 && gFilesOut == $idx && same($1, m.files[$idx].data)
+  call bufio.(*Writer).Write#1 set gWStage := 5
+  call bufio.(*Writer).WriteString#2 requires end-of-file: gWStage == 5
+  call bufio.(*Writer).WriteString#2 set gWStage := 4
+  call bufio.(*Writer).WriteString#2 set gFilesOut := gFilesOut + 1
+  call bufio.(*Writer).Flush requires everything-written: $0 == gBW && ((len(m.files) == 0 && gWStage == 3) || (len(m.files) > 0 && gWStage == 4 && gFilesOut == len(m.files)))
+  call bufio.(*Writer).Flush set gWFlush := $r0
+  call bufio.(*Writer).Flush set gWStage := 6
+  at return requires flush-result: gWStage == 6 ==> $r0 == gWFlush
+  at return requires nothing-half-written: $r0 == nil ==> gWStage == 6
+  loop 0 invariant files: ((len(m.files) == 0 && gWStage == 3) || (len(m.files) > 0 && gWStage == 4)) && gFilesOut == $idx + 1 && m != nil && gBW != nil
+
+# Header.Write (C09 canonical header): "Mid: <mid>" is the first line; every other key is
+# written once per value as "<key>: <trimmed value>", keys in sorted order (sort package
+# contract), the Mid key not repeated; a header without Mid is an error and nothing is written.
+ghost var gHdrLines int
+ghost var gKeysSorted bool
+
+func fbb.(Header).get(h, key) (r)
+  props C09
+  trusted
+  functional
+
+func fbb.(Header).Write(h, w) (err)
+  props C09
+  requires writer: w != nil
+  call fmt.Fprintf#0 requires mid-first: gHdrLines == 0 && $1 == "Mid: %s\r\n" && len($2) == 1 && same(unbox($2[0]), fbb.(Header).get(h, "Mid")) && len(fbb.(Header).get(h, "Mid")) > 0
+  call fmt.Fprintf set gHdrLines := gHdrLines + 1
+  at append requires mid-not-repeated: len($1) == 1 && !gMidFold && same($1[0], gMidFoldKey)
+  call strings.EqualFold requires against-mid: streq($1, "Mid") && same($0, k)
+  call strings.EqualFold set gMidFold := $r0
+  call strings.EqualFold set gMidFoldKey := $0
+  call sort.Sort requires all-other-keys: typeis($0, "sort.StringSlice") && same(unbox($0), keys) && !gKeysSorted
+  call sort.Sort set gKeysSorted := true
+  call textproto.TrimString set gTrimmed := $r0
+  call fmt.Fprintf#1 requires field-line: gHdrLines >= 1 && gKeysSorted && $1 == "%s: %s\r\n" && len($2) == 2 && same(unbox($2[0]), key) && same(unbox($2[1]), gTrimmed)
+  call fmt.Fprintf#1 requires to-the-writer: $0 == w
+  call fmt.Fprintf#0 requires to-the-writer: $0 == w
+  at return requires no-mid-no-output: fbb.(Header).get(h, "Mid") == "" ==> $r0 != nil && gHdrLines == 0
+  loop 1 invariant lines: gHdrLines >= 1
+  loop 2 invariant lines: gHdrLines >= 1
+
+ghost var gMidFold bool
+ghost var gMidFoldKey string
+ghost var gTrimmed string
+
+# C09 representation: the Body header is the length of the stored body, and the File headers
+# list "<size> <encoded name>" for the attachments in order - established by the setters
+ghost var gBodyBytes []byte
+ghost var gLenStr string
+ghost var gEncName string
+ghost var gFileHdr string
+
+func fbb.(*Message).SetBodyWithCharset(m, charset, body) (err)
+  props C09 C18
+  requires msg: m != nil && m.Header != nil
+  call fbb.StringToBody set gBodyBytes := $r0
+  call fmt.Sprintf requires body-length: $0 == "%d" && len($1) == 1 && unbox($1[0]) == len(gBodyBytes)
+  call fmt.Sprintf set gLenStr := $r0
+  call fbb.(Header).Set#2 requires body-header: $1 == "Body" && same($2, gLenStr)
+  at return requires stored: $r0 == nil ==> same(m.body, gBodyBytes)
+  at return requires error-keeps-body: $r0 != nil ==> same(m.body, old(m.body))
+
+func fbb.(*Message).AddFile(m, f) ()
+  props C09
+  requires msg: m != nil && f != nil && m.Header != nil
+  at append requires appended-last: len($1) == 1 && $1[0] == f && same($0, m.files)
+  call mime.(WordEncoder).Encode set gEncName := $r0
+  call fmt.Sprintf requires size-and-name: $0 == "%d %s" && len($1) == 2 && unbox($1[0]) == len(f.data) && same(unbox($1[1]), gEncName)
+  call fmt.Sprintf set gFileHdr := $r0
+  call fbb.(Header).Add requires file-header: $1 == "File" && same($2, gFileHdr)
 
 # readSection (C09/C01 message framing): a section is its declared number of bytes read from
 # the message stream followed by its line terminator, which is consumed too (else the next
@@ -366,6 +481,19 @@ func fbb.(*Message).ReadFrom(m, r) (err)
   requires reader: r != nil
   # one *File per "File:" header line actually received (never a number the remote declares)
   allocbound mimeBytes(m.Header.$ref)
+  # C09 reader side of the framing: after the header block, the body is BodySize() bytes (the
+  # Body header) plus its terminator, then one section per File header, in header order, each
+  # of the size its header declares (the number before the first blank); all from one reader
+  call bufio.NewReader set gRd := $r0
+  call fbb.trimLeftSpace requires same-reader [C09]: $0 == gRd
+  call textproto.NewReader requires same-reader [C09]: $0 == gRd
+  call fbb.(*Message).BodySize requires own-header [C09]: $0 == m
+  call fbb.(*Message).BodySize set gBodySize := $r0
+  call fbb.readSection#0 requires body-size-from-header [C09]: $0 == gRd && $1 == gBodySize
+  call strings.SplitN requires file-header-fields [C09]: same($0, value) && $1 == " " && $2 == 2
+  call strconv.Atoi requires declared-size [C09]: same($0, slice[0])
+  call strconv.Atoi set gFileSize := $r0
+  call fbb.readSection#1 requires file-size-from-header [C09]: $0 == gRd && $1 == gFileSize
 
 # C04 block verdict: nil is returned only if the running checksum including the
 # checksum byte is zero, the payload length equals the proposed compressed size,
